@@ -59,6 +59,7 @@ ROOT_NAMES = ["data", "root1", "Form", "my-form", "x.y", "_r", "survey1", "g√©n√
 BAD_NAMES = ["1a", "a b", "$x", "-x", "a$b"]
 STD_PREFIXES = ["jr", "orx", "odk", "ev", "xsd", "h"]
 NS_PREFIXES = ["foo", "bar", "my-ns", "e_x", "p1", "ns.2", "q", "Foo", "x1", "√ún√Ø", "abc", "_p"]
+RESERVED_NS = ["http://www.w3.org/XML/1998/namespace", "http://www.w3.org/2000/xmlns/"]
 URIS = ["http://foo", "http://example.com/ns", "urn:x:y", "http://a/b?c=d", "x", "http://√©", "a&b", "<uri>"]
 ATTR_LOCALS = ["x", "y", "abc", "a-b", "a.b", "_u", "Z9", "√©", "id", "version", "prefix", "Data", "k1", "k2", "k_3", "w",
                # names of keyword parameters on the way to the DOM (node(), xml_instance): must be ordinary attributes
@@ -109,6 +110,8 @@ def gen_namespaces(rng, tamed):
         if r < 0.6:
             p = rng.choice(NS_PREFIXES)
             u = rng.choice(URIS[:4] if tamed else URIS)
+            if rng.random() < 0.04:
+                u = rng.choice(RESERVED_NS)
             q = rng.choice(["", '"', "'"])
             items.append(f"{p}={q}{u}{q}")
             if "=" not in u:
@@ -153,7 +156,7 @@ def gen_value(rng, canon, tamed, knobs):
     if canon == "style":
         return rng.choice(["pages", "theme-grid", "pages theme-grid"]) if r < 0.5 else t(3)
     if canon == "instance_xmlns":
-        return rng.choice(URIS[:4] if tamed else URIS)
+        return rng.choice(RESERVED_NS) if r < 0.04 else rng.choice(URIS[:4] if tamed else URIS)
     if canon == "clean_text_values":
         return rng.choice(YES[:3] + NO[:3] + ["maybe"])
     if canon == "allow_choice_duplicates":
@@ -192,6 +195,40 @@ SURVEYS += [
     [{"type": "text", "name": "q1", "label::English (en)": "Q1", "label::fr": "Q1f"}],
 ]
 CHOICES = [{"list_name": "yn", "name": "y", "label": "Y"}, {"list_name": "yn", "name": "n", "label": "N"}]
+
+
+def case_cells_ok(cells) -> bool:
+    return bool(cells)
+
+
+def settings_grid(rng, hdr, row, typed):
+    """The settings sheet as a grid of cell values (None = empty cell), the way a spreadsheet holds it: header row
+    + data row, optionally with header-less columns ‚Äî a spacer column, data starting in column B, a stray note
+    under no header ‚Äî which carry no XLSForm data and must not shift or feed any setting."""
+    head = list(hdr)
+    data = []
+    for c in head:
+        v = row.get(c)
+        if typed and isinstance(v, str) and re.fullmatch(r"[1-9][0-9]{0,14}", v):
+            v = int(v)
+        data.append(v)
+    if rng.random() < 0.5:
+        for _ in range(rng.choice([1, 1, 2, 3])):
+            i = 0 if rng.random() < 0.3 else rng.randint(0, len(head))
+            head.insert(i, None)
+            data.insert(i, rng.choice([None, None, "stray note", "7", "x"]))
+    return [head, data]
+
+
+def grid_json(grid):
+    def cell(v):
+        if v is None or isinstance(v, (str, bool)):
+            return v
+        if isinstance(v, int):
+            return {"t": "int", "v": v}
+        raise vcore.Infra("unexpected cell " + repr(v))
+
+    return [[cell(v) for v in r] for r in grid]
 
 
 def file_stem(name: str) -> str:
@@ -335,11 +372,15 @@ def gen_case(rng, tier_big=False, subset=None):
         survey_settings = [[t, n] for t, n, _ in survey_settings]
         canon_of = {"form_title": "title", "set_form_title": "title", "form_id": "id_string", "set_form_id": "id_string", "prefix": "prefix"}
         overlay = [[canon_of[t], "None" if n is None else n] for t, n in survey_settings]
-    return {
+    case = {
         "channel": channel, "hdr": hdr, "row": cells, "intended": intended, "attribute": attribute,
         "args": args, "fallback": fallback, "filename": filename, "survey": survey, "survey_settings": survey_settings, "overlay": overlay, "dup": dup, "has_sheet": has_sheet,
         "typed": channel.endswith("xlsx") and rng.random() < 0.5,
+        "grid": None,
     }
+    if channel.endswith("xlsx") and case_cells_ok(cells) and has_sheet:
+        case["grid"] = settings_grid(rng, hdr, dict(cells), case["typed"])
+    return case
 
 
 # --------------------------------------------------------------------------- running the implementation
@@ -355,7 +396,7 @@ def case_form(case):
     return form
 
 
-def to_xlsx_bytes(form, typed):
+def to_xlsx_bytes(form, typed, grid=None):
     import openpyxl
 
     wb = openpyxl.Workbook()
@@ -363,6 +404,10 @@ def to_xlsx_bytes(form, typed):
     for s in impl.SHEETS:
         if s in form and form[s] is not None:
             ws = wb.create_sheet(s)
+            if s == "settings" and grid is not None:
+                for r in grid:
+                    ws.append(r)
+                continue
             cols = impl.headers_of(form[s], form.get(s + "_cols"))
             ws.append(cols)
             for r in form[s]:
@@ -395,7 +440,7 @@ def run_impl(case, tmpdir):
             d = Path(tempfile.mkdtemp(dir=tmpdir))
             p = d / (case.get("filename") or (case["fallback"] + (".xlsx" if ch == "path-xlsx" else ".md")))
             if ch == "path-xlsx":
-                p.write_bytes(to_xlsx_bytes(form, case["typed"]))
+                p.write_bytes(to_xlsx_bytes(form, case["typed"], case.get("grid")))
             else:
                 p.write_text(impl.to_md(form), encoding="utf-8")
             try:
@@ -403,7 +448,7 @@ def run_impl(case, tmpdir):
             finally:
                 shutil.rmtree(d, ignore_errors=True)
         elif ch == "mem-xlsx":
-            data = to_xlsx_bytes(form, case["typed"])
+            data = to_xlsx_bytes(form, case["typed"], case.get("grid"))
             res = convert(xlsform=io.BytesIO(data), **kw)
         elif ch == "mem-md":
             res = convert(xlsform=impl.to_md(form).encode("utf-8"), file_type=".md", **kw)
@@ -533,6 +578,18 @@ def model_call(ctx, case):
         kw["fallback"] = case["fallback"]
     if case.get("survey_settings"):
         kw["survey_settings"] = case["survey_settings"]
+    if case.get("grid"):
+        # spreadsheet channel: the header row / row 0 the settings model starts from are what the Lean model of
+        # the Excel backend (Pyxv.Backends: getHeaders / get_excel_rows) reads off the decoded grid
+        b = ctx.driver.call("be.sheet", grid=grid_json(case["grid"]))
+        if b["outcome"] != "ok":
+            raise vcore.Infra("backend model rejects the settings grid: " + repr(b))
+        ctx.count("settings_grid" + ("+headerless_columns" if None in case["grid"][0] else ""))
+        hdr = b["header"][0] if b["header"] else []
+        row = b["rows"][0] if b["rows"] else []
+        if row:
+            return ctx.driver.call("settings.model", hdr=hdr, row=row, **kw)
+        return ctx.driver.call("settings.model", **kw)
     if case["has_sheet"] and case["row"]:
         return ctx.driver.call("settings.model", hdr=case["hdr"], row=case["row"], **kw)
     return ctx.driver.call("settings.model", **kw)
@@ -558,7 +615,8 @@ def spec_call(ctx, case, obs):
 NCNAME = re.compile(r"[A-Za-z_\u00c0-\u00d6\u00d8-\u00f6\u00f8-\u02ff\u0370-\u037d\u037f-\u1fff\u3001-\ud7ff]"
                     r"[-.0-9A-Za-z_\u00b7\u00c0-\u00d6\u00d8-\u00f6\u00f8-\u02ff\u0300-\u037d\u037f-\u1fff\u3001-\ud7ff]*")
 XML_BAD = re.compile("[^\t\n\r\u0020-\ud7ff\ue000-\ufffd\U00010000-\U0010ffff]")
-XML_ERR_MARKS = ("is not a valid XML name", "is not declared", "Invalid namespace declaration", "which is not allowed in XML")
+XML_ERR_MARKS = ("is not a valid XML name", "is not declared", "Invalid namespace declaration", "which is not allowed in XML",
+                 "uses the reserved prefix")
 
 
 def declared_namespaces(ns: str):
@@ -596,6 +654,11 @@ def xml_problem(case):
     names += [n for n, c in (("version", "version"), ("xmlns", "instance_xmlns"), ("odk:prefix", "prefix"),
                              ("odk:delimiter", "delimiter")) if intended.get(c)]
     maybe = None
+    # a reserved namespace name (xml / xmlns namespaces) must not be declared: rejected by trees that carry
+    # C01's reserved-names check, written out by older ones ‚Äî C01 decides, here only a possible reason
+    if any(u in RESERVED_NS for u in decl.values()) or intended.get("instance_xmlns") in RESERVED_NS or any(
+            k == "xmlns" and v in RESERVED_NS for k, v in case["attribute"]):
+        maybe = "?reserved namespace name"
     for k, v in case["attribute"]:
         collides = any(n != k and local_name(n) == local_name(k) for n in names)
         parts = k.split(":")
@@ -717,7 +780,7 @@ def one_case(ctx, case, tmpdir):
                 ctx.fail(Failure("rejected-valid-settings", msg[:300], case))
             elif s["rejects"] is not None and not excused and not err_matches(s["rejects"]["kind"], msg):
                 ctx.fail(Failure("rejected-for-another-reason", msg[:300], case, extra={"spec": s["rejects"]}))
-    ctx.record({k: case[k] for k in ("channel", "hdr", "row", "args", "fallback", "filename", "survey", "has_sheet") if k in case},
+    ctx.record({k: case[k] for k in ("channel", "hdr", "row", "args", "fallback", "filename", "survey", "has_sheet", "grid") if k in case},
                r["class"] == "ok" and bool(case["intended"] or case["attribute"]))
 
 
